@@ -72,9 +72,9 @@ REQUEST_LIMIT = 1000
 
 def plan(tier, seed):
     cases = []
-    n_db = 300 if tier == 'quick' else 9000
-    n_notif = 176 if tier == 'quick' else 5200
-    n_term = 8 if tier == 'quick' else 240
+    n_db = 900 if tier == 'quick' else 9000
+    n_notif = 528 if tier == 'quick' else 5200
+    n_term = 24 if tier == 'quick' else 240
     for i in range(n_db):
         cases.append({'kind': 'db', 'seed': seed * 1000003 + i})
     for i in range(n_notif):
